@@ -22,7 +22,7 @@ def _alarm(_signum, _frame):
 
 
 def run_one(mod, case, timeout=None):
-    timeout = timeout or getattr(mod, "CASE_TIMEOUT", 300)
+    timeout = timeout or (case.get("timeout") if isinstance(case, dict) else None) or getattr(mod, "CASE_TIMEOUT", 300)
     signal.signal(signal.SIGALRM, _alarm)
     signal.alarm(int(timeout))
     try:
